@@ -124,6 +124,7 @@ def domain (d : String) : Option (Nat × Nat × List T) :=
   | ["c11"] => some (2, 3, alphaC11)
   | ["c11s"] => some (2, 3, alphaC11s)
   | ["c11r"] => some (2, 3, alphaC11r)
+  | ["c11s", win] => win.toNat?.map fun w => (w, 0, alphaC11s)
   | ["c13", cap] => cap.toNat?.map fun c => (4, c, alphaC13)
   | ["c13s", cap] => cap.toNat?.map fun c => (4, c, alphaC13s)
   | _ => none
@@ -177,6 +178,8 @@ def enumerate (f : Facts) (m : OvMode) (idx dom : String) (len group : Nat) : Op
 inductive COp where
   | op (o : Op)
   | readOff | readIsc | readReason | readPeer
+  /-- a thread that only hammers the observers while the others run: no effect, no result of its own -/
+  | hammer
 
 def parseCOp (c : String) : Option COp :=
   let h := c.take 1 |>.toString
@@ -200,6 +203,7 @@ def parseCOp (c : String) : Option COp :=
     | "i", [] => some .readIsc
     | "n", [] => some .readReason
     | "g", [] => some .readPeer
+    | "h", [] => some .hammer
     | _, _ => none
 
 def parseProg (w : String) : Option (List COp) :=
@@ -213,6 +217,7 @@ def callCOp (f : Facts) (m : OvMode) (s : State) : COp → State × String
   | .readIsc => (s, if s.poisoned then "PANIC" else s!"isc_{if s.cancelled.isSome then 1 else 0}")
   | .readReason => (s, if s.poisoned then "PANIC" else s!"reason_{showOpt s.cancelled}")
   | .readPeer => (s, if s.poisoned then "PANIC" else s!"peer_{showOpt s.peer}")
+  | .hammer => (s, "h")
 
 def concFinal (f : Facts) (m : OvMode) (s : State) : String :=
   let (_, r) := Repe.Transfer.step f m s .waitReconnect
@@ -271,11 +276,12 @@ def watchdogLine (f : Facts) (m : OvMode) (idx : String) : String :=
   let c1 := run f m (init 8 64) (watchdogVisit false false)
   let e0 := run f m a0 [.cancel emptyReason]
   let e1 := run f m e0 (watchdogVisit false true ++ watchdogVisit true true)
+  -- K: idle timeout 4 s (tick at its clamp): visited not idle, later idle — same end as L
   -- G: zero idle timeout (idle at every visit); H: `Duration::MAX` (never idle); L: registered late, idle when seen
   let g1 := run f m a0 (watchdogVisit false true ++ watchdogVisit true true)
   let h1 := run f m a0 (watchdogVisit false false ++ watchdogVisit false false)
   let l1 := run f m a0 (watchdogVisit false true)
-  s!"{idx} watchdog A={showReasonW a1.cancelled}/{if same then "same" else "changed"} B={showReasonW b1.cancelled} C={showReasonW c1.cancelled} D={showReasonW c1.cancelled} E={showReasonW e1.cancelled} G={showReasonW g1.cancelled} H={showReasonW h1.cancelled} L={showReasonW l1.cancelled} reg=ok"
+  s!"{idx} watchdog A={showReasonW a1.cancelled}/{if same then "same" else "changed"} B={showReasonW b1.cancelled} C={showReasonW c1.cancelled} D={showReasonW c1.cancelled} E={showReasonW e1.cancelled} G={showReasonW g1.cancelled} H={showReasonW h1.cancelled} L={showReasonW l1.cancelled} K={showReasonW l1.cancelled} reg=ok"
 
 /-! ### line protocol -/
 
